@@ -42,6 +42,9 @@ FAMILIES = {
     'value-core': dict(kinds=['SUB', 'LT', 'IF', 'LET', 'MKS', 'GETA', 'MKA', 'TOS', 'TOA', 'SMAP', 'SFILT', 'FOLD'],
                        roots='iat', if_types='i', let_types='i',
                        leaves={'i': ['x', 'c'], 'b': ['p'], 'a': ['A']}),
+    # five-node family: arithmetic, let and fold lambdas only
+    'lam5': dict(kinds=['SUB', 'LET', 'TOS', 'FOLD'], roots='i', if_types='i', let_types='i',
+                 leaves={'i': ['x'], 'a': ['A']}),
     # strict family: no streams, ArrayRef may fail -> error behaviour must be equal as well
     'strict': dict(kinds=['SUB', 'LT', 'IF', 'LET', 'MKS', 'GETA', 'MKA', 'AREF', 'ALEN'], roots='iat',
                    if_types='ia', let_types='ia', leaves={'i': ['x', 'c'], 'b': ['p'], 'a': ['A']}),
